@@ -22,7 +22,9 @@ RULE = (
     'rolled back as the next command would) must equal the dump before the step or the dump of a clean run, and a '
     're-run of the step must end in the clean result.  Histories: all 12 orders of {classify, set-zeta-grid, '
     'set-curvature} x {rise, recession}, each with 0-3 failing attempts interleaved (duplicate step, injected fault, '
-    'kill), must end in the same dump.  Non-trivial: fault point after the first write of the step; distinct (dataset, '
+    'kill; after a completed step also a plain repeat, a repeat hitting an injected error, a repeat with an argument the '
+    'step rejects such as -d 0 or an off-grid reference -- each failing attempt must leave the dump unchanged), must end in '
+    'the same dump.  Non-trivial: fault point after the first write of the step; distinct (dataset, '
     'step, index, mode) counted.'
 )
 ASSUMPTIONS = [
@@ -41,8 +43,10 @@ REQUIRED = {
         'reruns-after-fault-checked': 300,
         'histories-compared': 12,
         'histories-with-failed-attempts': 6,
+        'failed-repeats-left-the-dataset-unchanged': 6,
         'step:classify': 1, 'step:set-zeta-grid': 1, 'step:set-curvature': 1, 'step:rise': 1, 'step:recession': 1,
         'commit-statements-seen': 5,
+        'rejected-argument-attempts-checked': 2,
     }
     for tier in ('quick', 'thorough')
 }
@@ -195,7 +199,7 @@ def enumerate_step_faults(ctx, case, name, argv, cur, tag, sizes):
             if not fired:
                 rec.inconclusive_because('fault {} {} of {} never fired'.format(at, mode, name))
                 continue
-            if exc is None:
+            if exc is None and status == 0:
                 rec.violation('injected-error-swallowed:' + name, {'statement_index': at, 'mode': mode}, dict(scase, fault=[at, mode, None]), 'fault')
                 continue
             rec.hit('exception-faults-injected')
@@ -205,7 +209,7 @@ def enumerate_step_faults(ctx, case, name, argv, cur, tag, sizes):
             rec.case()
             fresh_copy(cur, work)
             status, exc, _, _, _, fired = run_step(argv, work, at, 'interrupt')
-            if fired and exc is not None:
+            if fired and (exc is not None or status != 0):
                 rec.hit('interrupt-faults-injected')
                 verdict('interrupt', at, 'interrupt')
             elif fired:
@@ -235,7 +239,7 @@ def enumerate_step_faults(ctx, case, name, argv, cur, tag, sizes):
                 fresh_copy(cur, work)
                 if mode == 'exc-row':
                     status, exc, _, _, _, fired = run_step(argv, work, idx, mode, r)
-                    if not fired or exc is None:
+                    if not fired or (exc is None and status == 0):
                         rec.inconclusive_because('row fault {}:{} of {} never fired'.format(idx, r, name))
                         continue
                 else:
@@ -245,6 +249,28 @@ def enumerate_step_faults(ctx, case, name, argv, cur, tag, sizes):
                         continue
                 rec.hit('row-faults-injected')
                 verdict('row-' + ('error' if mode == 'exc-row' else 'kill'), idx, mode, r)
+    bad_first = {'set-zeta-grid': ['set-zeta-grid', 'X', '-d', '0'],
+                 'classify': ['classify', 'X', '-s', repr(case['sthr']), '-j', 'nan'],
+                 'rise': ['rise', 'X', '--reference-zeta-mm={!r}'.format(case['grid_step'] * 0.5)],
+                 'recession': ['recession', 'X', '--reference-zeta-mm={!r}'.format(case['grid_step'] * 1000000.0)]}.get(name)
+    if bad_first:
+        # a first attempt that fails on its own (an argument the step cannot work with)
+        rec.case()
+        fresh_copy(cur, work)
+        status, exc, *_ = run_step(bad_first, work)
+        if exc is not None or status != 0:
+            got = dump(work)
+            if got != pre:
+                rec.violation('mixed-state-after-a-rejected-argument:' + name, {'argv': bad_first, 'tables_changed': [t for t in got if got[t] != pre.get(t)]},
+                              dict(scase, fault=['bad-argument', None, None]), 'fault')
+            else:
+                status2, exc2, *_ = run_step(argv, work)
+                if dump(work) != post:
+                    rec.violation('rerun-after-a-rejected-argument-does-not-reach-the-clean-result:' + name, {'argv': bad_first}, dict(scase, fault=['bad-argument', None, None]), 'fault')
+                else:
+                    rec.hit('rejected-argument-attempts-checked')
+        else:
+            rec.hit('bad-argument-accepted (not a failed attempt): ' + name)
     if len(rec.samples) < 3:
         rec.sample({'step': name, 'statements': N, 'trace_first': log[:6], 'trace_last': log[-3:], 'executemany_rows': rows,
                     'tables_written': [t for t in post if post[t] != pre.get(t)]})
@@ -285,12 +311,32 @@ def run_histories(ctx, rng, case, base, tag, nhist):
                     failed_attempts += 1
             status, exc, *_ = run_step(argv, work)
             history.append((name, 'run', 'failed:' + exc.desc['type'] if exc else 'ok'))
-            if rng.random() < 0.4 and k:
-                # duplicate attempt: must fail and change nothing
-                status, exc, *_ = run_step(argv, work)
-                history.append((name, 'again', 'failed' if exc else 'ok'))
-                if exc is not None:
+            if rng.random() < 0.6 and k:
+                # attempts made after the step has succeeded: a plain repeat, a repeat that
+                # hits an error part-way, a repeat with an argument the step rejects --
+                # whatever fails must change nothing
+                before = dump(work)
+                kind = rng.choice(['again', 'again-with-fault', 'again-bad-argument'])
+                if kind == 'again':
+                    status, exc, *_ = run_step(argv, work)
+                elif kind == 'again-with-fault':
+                    status, exc, *_ = run_step(argv, work, rng.randint(1, 6), rng.choice(['exc-before', 'exc-after']))
+                else:
+                    bad = {'classify': ['classify', 'X', '-s', 'nan', '-j', repr(case['jthr'] * 2)],
+                           'set-zeta-grid': ['set-zeta-grid', 'X', '-d', '0'],
+                           'set-curvature': ['set-curvature', 'X', '2.5'],
+                           'rise': ['rise', 'X', '--reference-zeta-mm={!r}'.format(case['grid_step'] * 0.5)],
+                           'recession': ['recession', 'X', '--reference-zeta-mm={!r}'.format(case['grid_step'] * 1000000.0)]}[name]
+                    status, exc, *_ = run_step(bad, work)
+                failed = exc is not None or status != 0
+                history.append((name, kind, 'failed' if failed else 'ok'))
+                if failed:
                     failed_attempts += 1
+                    if dump(work) != before:
+                        rec.violation('failed-attempt-after-a-completed-step-changed-the-dataset:' + name,
+                                      {'attempt': kind, 'history': history}, {'dataset': case, 'history': history}, 'history')
+                        break
+                    rec.hit('failed-repeats-left-the-dataset-unchanged')
         got = dump(work)
         if ref is None:
             ref = got
